@@ -86,6 +86,9 @@ func evaluateSequence(cmd *cobra.Command, args []string) (cmdError error) {
 		defer func() {
 			if cmdError == nil {
 				cmdError = writeInPlaceHandler.FinishWriteInPlace(completedSuccessfully)
+			} else {
+				// discard the temp file, keep the error
+				_ = writeInPlaceHandler.FinishWriteInPlace(false)
 			}
 		}()
 	}
